@@ -205,9 +205,13 @@ class FuncAnalysis:
                 a = node.args[0]
                 if isinstance(a, ast.Name) and a.id in env and env[a.id][0] == 'Flags':
                     return AllOf(env[a.id][1])
-                if isinstance(a, (ast.GeneratorExp, ast.ListComp)) and len(a.generators) == 1:
-                    g = a.generators[0]
-                    if isinstance(g.target, ast.Name) and isinstance(g.iter, ast.Name) and not g.ifs:
+                if isinstance(a, (ast.GeneratorExp, ast.ListComp)) and len(a.generators) >= 1:
+                    gens = a.generators
+                    # `for r in A for a in r`: nested iteration over all entries of A
+                    chain = all(isinstance(g.target, ast.Name) and isinstance(g.iter, ast.Name) and not g.ifs for g in gens) \
+                        and all(gens[i + 1].iter.id == gens[i].target.id for i in range(len(gens) - 1))
+                    g = ast.comprehension(target=gens[-1].target, iter=gens[0].iter, ifs=[], is_async=0) if chain else gens[0]
+                    if chain:
                         env2 = dict(env)
                         env2[g.target.id] = ('LoopVar', g.target.id)
                         e = self.tr(a.elt, env2)
@@ -243,16 +247,18 @@ class FuncAnalysis:
                    for n in ast.walk(node))
 
     def only_loopflag(self, e, var):
-        """e consults flags only through the loop variable's own flag (or constructor inference)."""
-        t = e[0]
-        if t == 'LoopFlag':
-            return e[1] == var
-        if t in ('Ctor',):
-            return True
-        if t == 'Alt':
-            return self.only_loopflag(e[1], var) and self.only_loopflag(e[2], var) and \
-                (e[1][0] == 'LoopFlag' or e[2][0] == 'LoopFlag' or reads_loop(e))
-        return False
+        """e consults flags only through the loop variable's own flag, possibly combined (and/or/
+        public alternative) with public conditions or constructor inference on a public element."""
+        def leaves_ok(x):
+            t = x[0]
+            if t == 'LoopFlag':
+                return x[1] == var
+            if t in ('Ctor', 'Pub', 'Const'):
+                return True
+            if t in ('And', 'Or', 'Alt'):
+                return leaves_ok(x[1]) and leaves_ok(x[2])
+            return False
+        return leaves_ok(e) and reads_loop(e)
 
     def inline(self, name, arg, env):
         g = self.local_funcs[name]
